@@ -8,6 +8,7 @@ import (
 	"github.com/ChainSafe/sygma-relayer/chains/btc/config"
 	"github.com/ChainSafe/sygma-relayer/chains/btc/mempool"
 	"github.com/btcsuite/btcd/wire"
+	"github.com/sygmaprotocol/sygma-core/relayer/proposal"
 )
 
 // VerifRawTx calls the real rawTx (outputs + fee + inputs + change).
@@ -18,4 +19,10 @@ func (e *Executor) VerifRawTx(props []*BtcTransferProposal, resource config.Reso
 // VerifFee calls the real fee quote.
 func (e *Executor) VerifFee(numOfInputs, numOfOutputs uint64) (uint64, error) {
 	return e.fee(numOfInputs, numOfOutputs)
+}
+
+// VerifProposalsForExecution calls the real proposalsForExecution: which proposals of a delivery the
+// Executor selects for execution (and marks pending in its store).
+func (e *Executor) VerifProposalsForExecution(proposals []*proposal.Proposal, messageID string) ([]*BtcTransferProposal, error) {
+	return e.proposalsForExecution(proposals, messageID)
 }
